@@ -8,17 +8,23 @@ package main
 //
 // request : <kind> <hex payload>      kind E = read + eval + print (Lisp text)
 //                                     kind R = reader only (raw bytes) + print of what was read
+//                                     kind T = reader through a stream: payload entry NUL pad NUL cuts NUL bytes
+//                                              (entry point, number of spaces put in front, chunk sizes
+//                                              of the short-read reader or empty for natural 64 KiB blocks)
 //                                     kind Q = quit after a grace period (lets goroutines crash)
 // reply   : <status> <stage> <micros> <hex class> <hex message/value (truncated)>
 //           status V value | C Lisp condition (slip.Panic or condition instance) | P foreign Go panic
 
 import (
 	"bufio"
+	"bytes"
 	"encoding/hex"
 	"fmt"
+	"io"
 	"os"
 	"runtime"
 	"runtime/debug"
+	"strconv"
 	"strings"
 	"syscall"
 	"time"
@@ -40,6 +46,7 @@ const (
 // and package the object pool refers to.
 const c09Prelude = `
 (defclass c09-class () ((x :initarg :x :initform 1)))
+(defclass c09-class2 () ((y :initarg :y) (z)))
 (defflavor c09-flavor ((a 1)) () :gettable-instance-variables :settable-instance-variables)
 (defstruct c09-struct a b)
 (make-package "c09-pkg")
@@ -152,6 +159,8 @@ func c09Eval(kind string, raw []byte) (status, stage, class, text string) {
 	case "R":
 		code := slip.Read(raw, scope)
 		result = slip.List(code)
+	case "T":
+		result = c09WorkerStream(scope, raw)
 	default:
 		fmt.Fprintf(os.Stderr, "C09-worker: unknown request kind %q\n", kind)
 		os.Exit(2)
@@ -160,6 +169,144 @@ func c09Eval(kind string, raw []byte) (status, stage, class, text string) {
 	class = lib.TypeOf(scope, result)
 	text = c09Print(result)
 	status = "V"
+	return
+}
+
+// c09CutReader delivers data in chunks of the given sizes (short reads), the rest in reads as large
+// as the caller's buffer.
+type c09CutReader struct {
+	data []byte
+	cuts []int
+}
+
+func (r *c09CutReader) Read(p []byte) (int, error) {
+	if len(r.data) == 0 {
+		return 0, io.EOF
+	}
+	n := len(p)
+	if len(r.cuts) > 0 {
+		if r.cuts[0] < n {
+			n = r.cuts[0]
+		}
+		r.cuts = r.cuts[1:]
+		if n <= 0 {
+			n = 1
+		}
+	}
+	if n > len(r.data) {
+		n = len(r.data)
+	}
+	copy(p, r.data[:n])
+	r.data = r.data[n:]
+	return n, nil
+}
+
+// c09WorkerStream: the reader behind one of its stream entry points.
+func c09WorkerStream(scope *slip.Scope, raw []byte) slip.Object {
+	parts := bytes.SplitN(raw, []byte{0}, 4)
+	if len(parts) != 4 {
+		fmt.Fprintln(os.Stderr, "C09-worker: malformed T request")
+		os.Exit(2)
+	}
+	entry := string(parts[0])
+	pad, _ := strconv.Atoi(string(parts[1]))
+	var cuts []int
+	ones := false
+	for _, c := range strings.Split(string(parts[2]), ",") {
+		if c == "*1" {
+			ones = true
+		} else if n, err := strconv.Atoi(c); err == nil {
+			cuts = append(cuts, n)
+		}
+	}
+	data := append(bytes.Repeat([]byte{' '}, pad), parts[3]...)
+	if ones {
+		cuts = make([]int, len(data))
+		for i := range cuts {
+			cuts[i] = 1
+		}
+	}
+	natural := len(cuts) == 0
+	mk := func() io.Reader { return &c09CutReader{data: data, cuts: cuts} }
+	switch entry {
+	case "ReadStream":
+		code, _ := slip.ReadStream(mk(), scope)
+		return slip.List(code)
+	case "ReadStreamOne":
+		code, pos := slip.ReadStream(mk(), scope, true)
+		return slip.List{slip.List(code), slip.Fixnum(pos)}
+	case "ReadStreamPush":
+		ch := make(chan slip.Object, 1<<16)
+		slip.ReadStreamPush(mk(), scope, ch)
+		var out slip.List
+		for len(ch) > 0 {
+			out = append(out, <-ch)
+		}
+		return out
+	case "ReadStreamEach":
+		caller, ok := scope.Eval(slip.ReadString("(lambda (x) x)", scope)[0], 0).(slip.Caller)
+		if !ok {
+			fmt.Fprintln(os.Stderr, "C09-worker: a lambda is not a slip.Caller")
+			os.Exit(2)
+		}
+		slip.ReadStreamEach(mk(), scope, caller)
+		return nil
+	}
+	// Lisp level: a seekable string stream for natural blocks, else a plain (not seekable) input
+	// stream over the short-read reader
+	var stream slip.Object
+	if natural {
+		stream = slip.NewStringStream(data)
+	} else {
+		stream = slip.NewInputStream(mk())
+	}
+	scope.Let(slip.Symbol("c09-stream"), stream)
+	var src string
+	switch entry {
+	case "cl:read":
+		src = "(read c09-stream)"
+	case "cl:read-repeat":
+		// (read stream) until end-of-file: every form of the text goes through cl:read and its seeking
+		var out slip.List
+		form := slip.ReadString("(read c09-stream)", scope)
+		for i := 0; i < 64; i++ {
+			v, eof := c09ReadOnce(scope, form)
+			if eof {
+				break
+			}
+			out = append(out, v)
+		}
+		return out
+	case "gi:read-each":
+		src = "(read-each c09-stream (lambda (x) x))"
+	case "gi:read-push":
+		src = "(let ((c (make-channel 60000))) (read-push c09-stream c) c)"
+	default:
+		fmt.Fprintf(os.Stderr, "C09-worker: unknown stream entry %q\n", entry)
+		os.Exit(2)
+	}
+	var result slip.Object
+	for _, form := range slip.ReadString(src, scope) {
+		result = scope.Eval(form, 0)
+	}
+	return result
+}
+
+// c09ReadOnce evaluates the read form; an end-of-file condition ends the repetition, every other
+// condition or panic goes on to the case's recover.
+func c09ReadOnce(scope *slip.Scope, form slip.Code) (v slip.Object, eof bool) {
+	defer func() {
+		if r := recover(); r != nil {
+			if p, ok := r.(*slip.Panic); ok && strings.EqualFold(string(p.Hierarchy()[0]), "end-of-file") {
+				eof = true
+				return
+			}
+			panic(r)
+		}
+	}()
+	for _, f := range form {
+		v = scope.Eval(f, 0)
+	}
 	return
 }
 
